@@ -15,18 +15,15 @@ import (
 
 	dbm "github.com/tendermint/tm-db"
 
-	"github.com/tendermint/tendermint/abci/example/kvstore"
 	v0 "github.com/tendermint/tendermint/blockchain/v0"
 	cfg "github.com/tendermint/tendermint/config"
 	"github.com/tendermint/tendermint/consensus"
-	"github.com/tendermint/tendermint/crypto"
 	"github.com/tendermint/tendermint/crypto/ed25519"
 	"github.com/tendermint/tendermint/libs/log"
 	mpmock "github.com/tendermint/tendermint/mempool/mock"
 	"github.com/tendermint/tendermint/p2p"
 	p2pmock "github.com/tendermint/tendermint/p2p/mock"
 	bcproto "github.com/tendermint/tendermint/proto/tendermint/blockchain"
-	tmproto "github.com/tendermint/tendermint/proto/tendermint/types"
 	"github.com/tendermint/tendermint/proxy"
 	sm "github.com/tendermint/tendermint/state"
 	"github.com/tendermint/tendermint/store"
@@ -34,383 +31,6 @@ import (
 
 	"verifharness/core"
 )
-
-const chainID = "c13-chain"
-const maxChain = 8
-
-var baseTime = time.Unix(1600000000, 0).UTC()
-
-// ---------------------------------------------------------------------------------------------
-// canonical chain (deterministic from the validator configuration)
-
-type chain struct {
-	keys   []crypto.PrivKey // in validator-set order
-	vals   *types.ValidatorSet
-	genDoc *types.GenesisDoc
-	states []sm.State      // states[h] = state after block h (states[0] = genesis)
-	blocks []*types.Block  // blocks[h], h = 1..maxChain
-	ids    []types.BlockID // ids[h]
-	full   []*types.Commit // full[h] = commit for block h signed by everybody
-	mtx    sync.Mutex
-	alt    map[string]*types.Block
-}
-
-var chains sync.Map // config string -> *chain
-
-func keyOf(i int) crypto.PrivKey {
-	return ed25519.GenPrivKeyFromSecret([]byte(fmt.Sprintf("c13-validator-%d", i)))
-}
-
-// configOf orders (key index, power) the way the ValidatorSet does and returns "powers|keys".
-func configOf(powers []int64) (string, string) {
-	vs := make([]*types.Validator, len(powers))
-	idx := map[string]int{}
-	for i, p := range powers {
-		pk := keyOf(i).PubKey()
-		vs[i] = types.NewValidator(pk, p)
-		idx[string(pk.Address())] = i
-	}
-	set := types.NewValidatorSet(vs)
-	var ps, ks []string
-	for _, v := range set.Validators {
-		ps = append(ps, strconv.FormatInt(v.VotingPower, 10))
-		ks = append(ks, strconv.Itoa(idx[string(v.Address)]))
-	}
-	return strings.Join(ps, ","), strings.Join(ks, ",")
-}
-
-func txsFor(v int, h int64) []types.Tx {
-	if v == 0 {
-		return []types.Tx{types.Tx(fmt.Sprintf("h%d=canon", h))}
-	}
-	return []types.Tx{types.Tx(fmt.Sprintf("h%d=alt%d", h, v))}
-}
-
-func sigTime(h int64, i int) time.Time {
-	return baseTime.Add(time.Duration(h)*time.Second + time.Duration(i)*time.Millisecond)
-}
-
-type sigTok struct {
-	flag   byte // 'a', 'c', 'n'
-	addrOK bool
-	sigOK  bool
-}
-
-func (s sigTok) String() string {
-	if s.flag == 'a' {
-		return "a"
-	}
-	b := func(x bool) string {
-		if x {
-			return "1"
-		}
-		return "0"
-	}
-	return string(s.flag) + b(s.addrOK) + b(s.sigOK)
-}
-
-func parseSigToks(s string) ([]sigTok, bool) {
-	if s == "-" || s == "" {
-		return nil, true
-	}
-	var out []sigTok
-	for _, t := range strings.Split(s, ",") {
-		switch {
-		case t == "a":
-			out = append(out, sigTok{flag: 'a'})
-		case len(t) == 3 && (t[0] == 'c' || t[0] == 'n') && (t[1] == '0' || t[1] == '1') && (t[2] == '0' || t[2] == '1'):
-			out = append(out, sigTok{t[0], t[1] == '1', t[2] == '1'})
-		default:
-			return nil, false
-		}
-	}
-	return out, true
-}
-
-// makeCommit builds a real commit for (height, round 0, target) from validity tokens: a valid
-// token carries the validator's real signature over the real sign bytes, an invalid one 64 bytes
-// of garbage; a wrong address is 20 other bytes. Tokens beyond the validator set reuse key 0.
-func (ch *chain) makeCommit(height int64, target types.BlockID, toks []sigTok) *types.Commit {
-	sigs := make([]types.CommitSig, len(toks))
-	for i, t := range toks {
-		if t.flag == 'a' {
-			sigs[i] = types.NewCommitSigAbsent()
-			continue
-		}
-		ki := i
-		if ki >= len(ch.keys) {
-			ki = 0
-		}
-		addr := ch.keys[ki].PubKey().Address()
-		flag := types.BlockIDFlagCommit
-		bid := target
-		if t.flag == 'n' {
-			flag = types.BlockIDFlagNil
-			bid = types.BlockID{}
-		}
-		ts := sigTime(height, i)
-		vote := &types.Vote{Type: tmproto.PrecommitType, Height: height, Round: 0, BlockID: bid,
-			Timestamp: ts, ValidatorAddress: addr, ValidatorIndex: int32(i)}
-		var sig []byte
-		if t.sigOK && i < len(ch.keys) {
-			var err error
-			sig, err = ch.keys[ki].Sign(types.VoteSignBytes(chainID, vote.ToProto()))
-			if err != nil {
-				panic(err)
-			}
-		} else {
-			sig = make([]byte, 64)
-			for k := range sig {
-				sig[k] = byte(0xA0 + (k+i)%7)
-			}
-		}
-		a := []byte(addr)
-		if !t.addrOK {
-			a = make([]byte, 20)
-			for k := range a {
-				a[k] = byte(0xE0 + i)
-			}
-		}
-		sigs[i] = types.CommitSig{BlockIDFlag: flag, ValidatorAddress: a, Timestamp: ts, Signature: sig}
-	}
-	return types.NewCommit(height, 0, target, sigs)
-}
-
-func allSign(n int) []sigTok {
-	t := make([]sigTok, n)
-	for i := range t {
-		t[i] = sigTok{'c', true, true}
-	}
-	return t
-}
-
-func blockIDOf(b *types.Block) types.BlockID {
-	return types.BlockID{Hash: b.Hash(), PartSetHeader: b.MakePartSet(types.BlockPartSizeBytes).Header()}
-}
-
-func getChain(powersCSV, keysCSV string) (*chain, error) {
-	key := powersCSV + "|" + keysCSV
-	if c, ok := chains.Load(key); ok {
-		return c.(*chain), nil
-	}
-	ps := strings.Split(powersCSV, ",")
-	ks := strings.Split(keysCSV, ",")
-	if len(ps) != len(ks) || len(ps) == 0 {
-		return nil, fmt.Errorf("bad config")
-	}
-	ch := &chain{alt: map[string]*types.Block{}}
-	var gvals []types.GenesisValidator
-	for i := range ps {
-		p, err1 := strconv.ParseInt(ps[i], 10, 64)
-		k, err2 := strconv.Atoi(ks[i])
-		if err1 != nil || err2 != nil || p <= 0 {
-			return nil, fmt.Errorf("bad config")
-		}
-		pk := keyOf(k)
-		ch.keys = append(ch.keys, pk)
-		gvals = append(gvals, types.GenesisValidator{PubKey: pk.PubKey(), Power: p, Name: fmt.Sprintf("v%d", k)})
-	}
-	ch.genDoc = &types.GenesisDoc{GenesisTime: baseTime, ChainID: chainID, InitialHeight: 1, Validators: gvals,
-		ConsensusParams: types.DefaultConsensusParams()}
-	if err := ch.genDoc.ValidateAndComplete(); err != nil {
-		return nil, err
-	}
-	state, err := sm.MakeGenesisState(ch.genDoc)
-	if err != nil {
-		return nil, err
-	}
-	ch.vals = state.Validators.Copy()
-	for i, v := range ch.vals.Validators {
-		if !v.PubKey.Equals(ch.keys[i].PubKey()) {
-			return nil, fmt.Errorf("validator order differs from the op line")
-		}
-	}
-	app := kvstore.NewApplication()
-	pa := proxy.NewAppConns(proxy.NewLocalClientCreator(app))
-	if err := pa.Start(); err != nil {
-		return nil, err
-	}
-	defer pa.Stop() //nolint:errcheck
-	ss := sm.NewStore(dbm.NewMemDB(), sm.StoreOptions{})
-	if err := ss.Save(state); err != nil {
-		return nil, err
-	}
-	be := sm.NewBlockExecutor(ss, log.NewNopLogger(), pa.Consensus(), mpmock.Mempool{}, sm.EmptyEvidencePool{})
-	ch.states = []sm.State{state.Copy()}
-	ch.blocks = []*types.Block{nil}
-	ch.ids = []types.BlockID{{}}
-	ch.full = []*types.Commit{types.NewCommit(0, 0, types.BlockID{}, nil)}
-	for h := int64(1); h <= maxChain; h++ {
-		b, _ := state.MakeBlock(h, txsFor(0, h), ch.full[h-1], nil, ch.vals.Validators[0].Address)
-		id := blockIDOf(b)
-		ns, _, err := be.ApplyBlock(state, id, b)
-		if err != nil {
-			return nil, err
-		}
-		state = ns
-		ch.states = append(ch.states, state.Copy())
-		ch.blocks = append(ch.blocks, b)
-		ch.ids = append(ch.ids, id)
-		ch.full = append(ch.full, ch.makeCommit(h, id, allSign(len(ch.keys))))
-	}
-	c, _ := chains.LoadOrStore(key, ch)
-	return c.(*chain), nil
-}
-
-// variant returns the block at height h built on the canonical state h-1 with the given
-// transaction variant, flaw and LastCommit (nil = the canonical full commit).
-func (ch *chain) variant(h int64, txv int, flaw bool, lc *types.Commit) *types.Block {
-	if lc == nil {
-		lc = ch.full[h-1]
-	}
-	b, _ := ch.states[h-1].MakeBlock(h, txsFor(txv, h), lc, nil, ch.vals.Validators[0].Address)
-	if flaw {
-		b.AppHash = []byte("not-the-app-hash")
-	}
-	return b
-}
-
-// target of a commit: block (h, ttxv, tflaw) with canonical LastCommit; wp flips the part-set hash
-func (ch *chain) target(h int64, ttxv int, tflaw bool, wp bool) types.BlockID {
-	if h < 1 || h > maxChain {
-		return types.BlockID{}
-	}
-	var id types.BlockID
-	if ttxv == 0 && !tflaw {
-		id = ch.ids[h]
-	} else {
-		id = blockIDOf(ch.variant(h, ttxv, tflaw, nil))
-	}
-	if wp {
-		hh := append([]byte{}, id.PartSetHeader.Hash...)
-		hh[0] ^= 0x55
-		id.PartSetHeader.Hash = hh
-	}
-	return id
-}
-
-func tok32(b []byte) string {
-	if len(b) < 4 {
-		return "0"
-	}
-	return fmt.Sprintf("%x", uint32(b[0])<<24|uint32(b[1])<<16|uint32(b[2])<<8|uint32(b[3]))
-}
-
-func idTok(id types.BlockID) string { return tok32(id.Hash) + "/" + tok32(id.PartSetHeader.Hash) }
-
-// blockSpec is everything needed to rebuild a real block from an op line.
-type blockSpec struct {
-	h     int64
-	txv   int
-	flaw  bool
-	ttxv  int
-	tflaw bool
-	twp   bool
-	lch   int64
-	toks  []sigTok
-}
-
-func (ch *chain) build(s blockSpec) *types.Block {
-	var lc *types.Commit
-	if s.h == 1 && len(s.toks) == 0 {
-		lc = types.NewCommit(s.lch, 0, types.BlockID{}, nil)
-	} else {
-		lc = ch.makeCommit(s.lch, ch.target(s.h-1, s.ttxv, s.tflaw, s.twp), s.toks)
-	}
-	return ch.variant(s.h, s.txv, s.flaw, lc)
-}
-
-func b01(x bool) string {
-	if x {
-		return "1"
-	}
-	return "0"
-}
-
-func toksStr(t []sigTok) string {
-	if len(t) == 0 {
-		return "-"
-	}
-	s := make([]string, len(t))
-	for i := range t {
-		s[i] = t[i].String()
-	}
-	return strings.Join(s, ",")
-}
-
-// blockOp renders the op line for delivering the block described by s from peer p.
-func (ch *chain) blockOp(p int, s blockSpec) string {
-	b := ch.build(s)
-	return fmt.Sprintf("block p=%d h=%d id=%s prev=%s flaw=%s lc=%d:0:%s:%s d=%d/%d%s%s",
-		p, s.h, idTok(blockIDOf(b)), idTok(b.LastBlockID), b01(s.flaw), s.lch, idTok(b.LastCommit.BlockID), toksStr(s.toks),
-		s.txv, s.ttxv, b01(s.tflaw), b01(s.twp))
-}
-
-func kv(op string) map[string]string {
-	m := map[string]string{}
-	f := strings.Fields(op)
-	for _, t := range f[1:] {
-		if i := strings.IndexByte(t, '='); i > 0 {
-			m[t[:i]] = t[i+1:]
-		}
-	}
-	return m
-}
-
-func isIDTok(t string) bool {
-	p := strings.Split(t, "/")
-	if len(p) != 2 {
-		return false
-	}
-	for _, x := range p {
-		if x == "" {
-			return false
-		}
-		for _, c := range x {
-			if !strings.ContainsRune("0123456789abcdefABCDEF", c) {
-				return false
-			}
-		}
-	}
-	return true
-}
-
-func parseBlockOp(m map[string]string) (blockSpec, bool) {
-	var s blockSpec
-	var err error
-	if s.h, err = strconv.ParseInt(m["h"], 10, 64); err != nil || s.h < 1 || s.h > maxChain {
-		return s, false
-	}
-	if _, err := strconv.ParseUint(m["flaw"], 10, 64); err != nil {
-		return s, false
-	}
-	s.flaw = m["flaw"] != "0"
-	lc := strings.Split(m["lc"], ":")
-	if len(lc) != 4 || !isIDTok(m["id"]) || !isIDTok(m["prev"]) || !isIDTok(lc[2]) {
-		return s, false
-	}
-	if _, err := strconv.ParseInt(lc[1], 10, 64); err != nil {
-		return s, false
-	}
-	if s.lch, err = strconv.ParseInt(lc[0], 10, 64); err != nil {
-		return s, false
-	}
-	var ok bool
-	if s.toks, ok = parseSigToks(lc[3]); !ok {
-		return s, false
-	}
-	d := strings.Split(m["d"], "/")
-	if len(d) != 2 || len(d[1]) != 3 {
-		return s, false
-	}
-	if s.txv, err = strconv.Atoi(d[0]); err != nil {
-		return s, false
-	}
-	s.ttxv = int(d[1][0] - '0')
-	s.tflaw = d[1][1] == '1'
-	s.twp = d[1][2] == '1'
-	return s, true
-}
 
 // ---------------------------------------------------------------------------------------------
 // the syncing node
@@ -459,6 +79,7 @@ type node struct {
 	bs    *store.BlockStore
 	pa    proxy.AppConns
 	cs    *consensus.State
+	be    *sm.BlockExecutor
 	lg    *capLogger
 	peers []*hpeer
 }
@@ -476,28 +97,60 @@ func newSwitch() *p2p.Switch {
 func newNode(ch *chain) (*node, error) {
 	setTimeoutOnce.Do(func() { v0.VerifSetPeerTimeout(time.Hour) })
 	n := &node{ch: ch, lg: &capLogger{}}
-	state := ch.states[0].Copy()
+	state := ch.states[ch.ih-1].Copy()
 	n.ss = sm.NewStore(dbm.NewMemDB(), sm.StoreOptions{})
 	if err := n.ss.Save(state); err != nil {
 		return nil, err
 	}
 	n.bs = store.NewBlockStore(dbm.NewMemDB())
-	n.pa = proxy.NewAppConns(proxy.NewLocalClientCreator(kvstore.NewApplication()))
+	n.pa = proxy.NewAppConns(proxy.NewLocalClientCreator(&syncApp{}))
 	if err := n.pa.Start(); err != nil {
 		return nil, err
 	}
-	be := sm.NewBlockExecutor(n.ss, log.NewNopLogger(), n.pa.Consensus(), mpmock.Mempool{}, sm.EmptyEvidencePool{})
-	n.bcR = v0.NewBlockchainReactor(state.Copy(), be, n.bs, false)
+	n.be = sm.NewBlockExecutor(n.ss, log.NewNopLogger(), n.pa.Consensus(), mpmock.Mempool{}, sm.EmptyEvidencePool{})
+	n.cs = consensus.NewState(cfg.DefaultConsensusConfig(), state.Copy(), n.be, n.bs, mpmock.Mempool{}, sm.EmptyEvidencePool{})
+	n.reactor(state)
+	return n, nil
+}
+
+// reactor builds reactor, pool and switch on the node's stores (what node start-up does)
+func (n *node) reactor(state sm.State) {
+	n.bcR = v0.NewBlockchainReactor(state.Copy(), n.be, n.bs, false)
 	n.bcR.SetLogger(n.lg)
 	v0.VerifSyncMode(n.bcR)
 	n.pool = v0.VerifPool(n.bcR)
 	n.sw = newSwitch()
 	n.sw.AddReactor("BLOCKCHAIN", n.bcR)
-	n.cs = consensus.NewState(cfg.DefaultConsensusConfig(), state.Copy(), be, n.bs, mpmock.Mempool{}, sm.EmptyEvidencePool{})
-	return n, nil
 }
 
-func (n *node) close() {
+// restart: the process comes up again on the same stores. consensus.NewState reconstructs the
+// last commit first (a panic aborts start-up); the ABCI handshake is a no-op here (the
+// application kept its state).
+func (n *node) restart() string {
+	state, err := n.ss.Load()
+	if err != nil {
+		return "state-error"
+	}
+	msg := ""
+	var cs *consensus.State
+	func() {
+		defer func() {
+			if r := recover(); r != nil {
+				msg = fmt.Sprint(r)
+			}
+		}()
+		cs = consensus.NewState(cfg.DefaultConsensusConfig(), state.Copy(), n.be, n.bs, mpmock.Mempool{}, sm.EmptyEvidencePool{})
+	}()
+	if msg != "" {
+		return classifyHandover(msg)
+	}
+	n.stopNet()
+	n.cs = cs
+	n.reactor(state)
+	return fmt.Sprintf("ok h=%d", n.pool.VerifView().Height)
+}
+
+func (n *node) stopNet() {
 	for _, p := range n.pool.VerifView().Peers {
 		n.pool.RemovePeer(p.ID)
 	}
@@ -505,7 +158,20 @@ func (n *node) close() {
 	for _, p := range n.peers {
 		_ = p.Stop()
 	}
+	n.peers = nil
+}
+
+func (n *node) close() {
+	n.stopNet()
 	_ = n.pa.Stop()
+}
+
+// storedHeight: height of the last stored block (initial height - 1 for an empty store)
+func (n *node) storedHeight() int64 {
+	if h := n.bs.Height(); h > 0 {
+		return h
+	}
+	return n.ch.ih - 1
 }
 
 func pid(i int) p2p.ID { return p2p.ID(strconv.Itoa(i)) }
@@ -579,32 +245,6 @@ func classifyHandover(msg string) string {
 		return "panic-sig"
 	}
 	return "panic-other:" + strings.ReplaceAll(msg, " ", "_")
-}
-
-// commitToks renders a stored commit as validity tokens (independent re-verification with the
-// validators' public keys).
-func (n *node) commitToks(c *types.Commit) string {
-	if len(c.Signatures) == 0 {
-		return "-"
-	}
-	out := make([]string, len(c.Signatures))
-	for i, s := range c.Signatures {
-		if s.Absent() {
-			out[i] = "a"
-			continue
-		}
-		t := sigTok{flag: 'c'}
-		if s.BlockIDFlag == types.BlockIDFlagNil {
-			t.flag = 'n'
-		}
-		if i < len(n.ch.vals.Validators) {
-			v := n.ch.vals.Validators[i]
-			t.addrOK = string(v.Address) == string(s.ValidatorAddress)
-			t.sigOK = v.PubKey.VerifySignature(c.VoteSignBytes(chainID, int32(i)), s.Signature)
-		}
-		out[i] = t.String()
-	}
-	return strings.Join(out, ",")
 }
 
 func (n *node) recv(p *hpeer, msg interface{}) (panicked bool) {
@@ -687,7 +327,7 @@ func (n *node) op(op string) string {
 		return r
 	case "block":
 		p, ok := geti("p")
-		spec, ok2 := parseBlockOp(m)
+		spec, ok2 := n.ch.parseBlockOp(m)
 		if !ok || !ok2 || p < 0 {
 			return "bad-op"
 		}
@@ -766,7 +406,7 @@ func (n *node) op(op string) string {
 		if err != nil {
 			return "state-error"
 		}
-		h0 := n.bs.Height()
+		h0 := n.storedHeight()
 		e0 := n.lg.count()
 		conn0 := n.connectedIDs()
 		until := func() bool {
@@ -810,7 +450,7 @@ func (n *node) op(op string) string {
 			}
 			pair = a + "/" + b
 		}
-		return fmt.Sprintf("saved=%d err=%s pair=%s stopped=%s h=%d", n.bs.Height()-h0, errTok, pair, listStr(stopped), view.Height)
+		return fmt.Sprintf("saved=%d err=%s pair=%s stopped=%s h=%d", n.storedHeight()-h0, errTok, pair, listStr(stopped), view.Height)
 	case "peek":
 		a, b := n.pool.PeekTwoBlocks()
 		s := func(x *types.Block) string {
@@ -844,16 +484,21 @@ func (n *node) op(op string) string {
 			return "state-error"
 		}
 		var bl []string
-		for h := int64(1); h <= n.bs.Height(); h++ {
+		for h := n.ch.ih; h <= n.bs.Height(); h++ {
 			b := n.bs.LoadBlock(h)
 			sc := n.bs.LoadSeenCommit(h)
 			if b == nil || sc == nil {
 				bl = append(bl, fmt.Sprintf("%d:missing", h))
 				continue
 			}
-			bl = append(bl, fmt.Sprintf("%d:%s:%s:%s", h, idTok(blockIDOf(b)), idTok(sc.BlockID), n.commitToks(sc)))
+			bl = append(bl, fmt.Sprintf("%d:%s:%s:%s", h, idTok(blockIDOf(b)), idTok(sc.BlockID), commitToks(sc)))
 		}
 		return fmt.Sprintf("state=%d:%s blocks=%s", state.LastBlockHeight, idTok(state.LastBlockID), strings.Join(append([]string{}, bl...), ";")) + dashIfEmpty(bl)
+	case "restart":
+		if len(f) != 1 {
+			return "bad-op"
+		}
+		return n.restart()
 	case "handover":
 		if !n.pool.IsCaughtUp() {
 			return "not-caught-up"
@@ -912,7 +557,7 @@ func execOnce(c core.Case) []string {
 		}
 		if f[0] == "init" {
 			m := kv(op)
-			ch, err := getChain(m["vals"], m["keys"])
+			ch, err := getChain(m["vals"], m["ih"], m["upd"])
 			if err != nil {
 				out = append(out, "bad-op")
 				continue
@@ -951,7 +596,7 @@ func main() {
 			"a failed verification removes both delivering peers from pool and switch; hand-over (reconstructLastCommit) does not panic; scripted honest retry reaches tip-1",
 		Assumptions: []string{
 			"the requester goroutine is represented by its three transitions (pick / redo read / retry timer) through build-tag hooks that call the real sub-functions; the processing branch is the real poolRoutine",
-			"validator set constant over the chain (kvstore application without validator updates)",
+			"the application is a counting app whose val:<key>!<power> transactions update the validator set (canonical chain built by the real BlockExecutor)",
 			"block ids compared by 32-bit prefixes of hash and part-set-header hash",
 		},
 		Extra: extra,
